@@ -15,6 +15,7 @@ mod toks;
 mod pool;
 mod c11;
 mod c04;
+mod c08;
 mod util;
 
 use std::path::PathBuf;
@@ -46,6 +47,7 @@ fn main() {
         "c16" => c16::run(&tier, seed, &out),
         "c11" => c11::run(&tier, seed, &out),
         "c04" => c04::run(&tier, seed, &out),
+        "c08" => c08::run(&tier, seed, &out),
         "probe" => probe(&out),
         // rfverif tokens <file> [keep]  : the encoded token list of a file (for the C01/C03 validators)
         "tokens" => { let src = std::fs::read_to_string(&args[2]).unwrap_or_default(); println!("{}", toks::encode_tokens(&src, args.get(3).map(|s| s == "keep").unwrap_or(false))); 0 }
